@@ -80,6 +80,24 @@ Definition dir_unloadedb (w : world) (j : nat) : bool :=
   | None => true
   end.
 
+(* ------------------------------------------------------------------ *)
+(* loaded from the fit's current source (proofs: LS) *)
+Definition fit_of_place (p : option place) : option nat :=
+  match p with Some (PSlot f _) | Some (PSet f _) | Some (PRack f _) => Some f | _ => None end.
+
+Definition LSb (w : world) : bool :=
+  forallb (fun jc : nat * item =>
+             let it := snd jc in
+             if directb it then
+               match i_loaded it with
+               | None => true
+               | Some src => match fit_of_place (i_cont it) with
+                             | Some f => onat_eqb (fit_source_id w f) (Some src)
+                             | None => false
+                             end
+               end
+             else true) (w_items w).
+
 Definition op_okb3 (w : world) (o : op) : bool :=
   match o with
   | ODefSource src u =>
@@ -87,17 +105,22 @@ Definition op_okb3 (w : world) (o : op) : bool :=
     FLATsb w' && forallb (fun jc : nat * item => if directb (snd jc) then true else NAtidb w' (i_tid (snd jc))) (w_items w)
   | ONewItem _ c tid _ _ =>
     match c with CAutocharge | CCharge => NAtidb w tid | _ => true end
+  | ONewSolsys x => negb (is_some (get_ss w x))
   | OCharge m _ => match get_item w m with Some mit => directb mit | None => true end
   | OSolsysAdd x f =>
     let w1 := upd_fit (ss_set_fits w x (set_add neqb (ss_fit_list w x) f)) f (fun ft => fit_set_solsys ft (Some x)) in
     nodupb Nat.eqb (fit_list w1 f) && forallb (dir_unloadedb w1) (fit_list w1 f)
   | OSource x new =>
-    match get_ss w x, new with
-    | Some y, Some _ =>
+    match get_ss w x with
+    | Some y =>
       let m := fst (src_mid (w, []) x y new) in
-      let l := flat_map (fit_list m) (ss_fit_list m x) in
-      nodupb Nat.eqb l && forallb (dir_unloadedb m) l
-    | _, _ => true
+      (if onat_eqb (ss_source y) new then true else LSb m) &&
+      match new with
+      | Some _ => let l := flat_map (fit_list m) (ss_fit_list m x) in
+                  nodupb Nat.eqb l && forallb (dir_unloadedb m) l
+      | None => true
+      end
+    | None => true
     end
   | _ => true
   end.
